@@ -508,6 +508,9 @@ def values(t: dict, env: Env, rng, n: int = 4, depth: int = 0) -> list:
             try:
                 outs.append(ctor(inner[:1]))
                 outs.append(ctor(inner[:3]))
+                if depth == 0 and t["a"]["k"] in ("prim", "enum") and t["c"] in ("list", "tuple", "deque") and n >= 4:
+                    # size: 1,200 elements (a chunked loop, a recursion per element, a too small memo must show)
+                    outs.append(ctor(inner[i % len(inner)] for i in range(1200)))
             except TypeError:
                 pass
         return outs[:n]
